@@ -62,6 +62,50 @@ class ParseRoles:
         self.parse_bodies = [b for b in prog.bodies if b.id in self.reach and b.locals[0]['ty'].startswith('std::result::Result<parser::ExprAST<') and b.arg_count >= 1
                              and b.locals[1]['ty'].startswith('&mut ') and b is not self.entry]
 
+    def views(self, tag):
+        """the same roles over *views* of the parse bodies: 'shallow' inlines closures handed to Option / Result
+        combinators and private helpers that are not themselves parse bodies or token-stream roles; 'deep' also inlines
+        parse bodies that have a single caller into that caller (recursion cut).  A view is the same program, so a rule that is clean on
+        a view has proved its obligation"""
+        import copy
+        cache = self.__dict__.setdefault('_views', {})
+        if tag in cache:
+            return cache[tag]
+        role_ids = set(self.next_family) | set(self.expect_family)
+        for r in (self.token_next, self.expect, self.entry):
+            if r is not None:
+                role_ids.add(r.id)
+        pids = {b.id for b in self.parse_bodies}
+
+        def keep(g):
+            if g.id in role_ids:
+                return True
+            if g.id in pids and (tag == 'shallow' or len(self.prog.callers.get(g.id, ())) != 1):
+                # 'deep' opens a parse body only into its single caller (an extracted helper); shared ones stay calls
+                return True
+            # token predicates / accessors of other types stay calls: only helpers of the parser itself are opened
+            if g.arg_count >= 1 and self.tok_name and self.tok_name in g.locals[1]['ty'] and tag == 'shallow':
+                return True
+            return g.is_pub and g.id not in pids
+        v = copy.copy(self)
+        v.__dict__['_views'] = {}
+        v.parse_bodies = [self.prog.view(b, keep, tag='parse-' + tag) for b in self.parse_bodies]
+        v.view_tag = tag
+        cache[tag] = v
+        return v
+
+    def token_bodies(self, views=False):
+        """the bodies below parse_expression; views=True: each read with the closures it hands to Option / Result
+        combinators inlined (those closures are then not listed on their own)"""
+        out = [self.prog.by_id[i] for i in sorted(self.reach)]
+        if not views:
+            return out
+        vs = [self.prog.view(b, keep=lambda g: True, tag='comb') for b in out]
+        swallowed = set()
+        for v in vs:
+            swallowed |= set(v.j.get('inlined') or []) if getattr(v, 'is_view', False) else set()
+        return [v for v, b in zip(vs, out) if not (b.is_closure and b.name in swallowed)]
+
     def _reaches_char_next(self, b):
         for bid in self.prog.reach([b.id]):
             for c in self.prog.by_id[bid].live_calls:
@@ -120,6 +164,53 @@ class ParseRoles:
             if lits and (cc.dest['l'] == 0 or True):
                 return lits[0]
         return None
+
+
+def fallback(rule, roles, *args, **kw):
+    """run `rule` on the bodies as written; if that leaves a violation, on the shallow and then the deep view
+    (same program, helpers / combinator closures inlined); the first clean reading decides"""
+    first = rule(roles, *args, **kw)
+    if not any(o.status == 'violated' for o in first):
+        return first
+    for tag in ('shallow', 'deep'):
+        vr = roles.views(tag)
+        if all(a is b for a, b in zip(vr.parse_bodies, roles.parse_bodies)):
+            continue
+        try:
+            res = rule(vr, *args, **kw)
+        except Exception:
+            continue
+        if not any(o.status == 'violated' for o in res):
+            for o in res:
+                o.what = (o.what or '') + ' [read on the %s view: helpers / combinator closures inlined]' % tag
+            return res
+    return first
+
+
+def pred_literal_at(roles, c):
+    """the literal a token predicate call tests for: fixed inside the predicate (`is_close_paren`), or handed over
+    at the call site to a predicate that compares its &str parameter (`check_op(token, ")")`)"""
+    lit = roles.pred_literal(c)
+    if lit is not None:
+        return lit
+    if c.ruid is None:
+        return None
+    g = roles.prog.by_id[c.ruid]
+    if g.locals[0]['ty'] != 'bool':
+        return None
+    for k, a in enumerate(c.args):
+        if k == 0 or k + 1 > g.arg_count or 'str' not in g.locals[k + 1]['ty']:
+            continue
+        lit = op_const_str_traced(c.body, a)
+        if lit is None:
+            continue
+        for cc in g.live_calls:
+            if (cc.callee or '') in ('std::cmp::PartialEq::eq', 'std::cmp::PartialEq::ne'):
+                for x in cc.args:
+                    o = single_origin(trace_operand(g, x, through_calls=THROUGH))
+                    if o is not None and o.kind == 'param' and o.data == k + 1:
+                        return lit
+    return None
 
 
 def op_const_str_traced(body, op):
@@ -406,7 +497,7 @@ def _closer_edges(roles, b, lit):
     tf = TokenFacts(roles, b)
     for sb, (k, m, cb) in tf.pred_at.items():
         c = b.call_at(cb)
-        if c is not None and roles.pred_literal(c) == lit:
+        if c is not None and pred_literal_at(roles, c) == lit:
             for tb, truth in m.items():
                 if truth == 1:
                     edges.append((sb, tb, '%s is true' % roles.prog.by_id[c.ruid].name.split('::')[-1]))
